@@ -412,7 +412,7 @@ class C18:
             "flags, option subset, content state, out form)")
     required = ("snap_recheck", "snap_info", "snap_magnet", "snap_create", "snap_rename", "create_write_events_seen",
                 "probe_path_preexisting", "probe_path_preexisting_empty", "failing_create_cases", "rename_target_exists",
-                "rename_target_is_directory", "rename_long_name_cases",
+                "rename_target_is_directory", "rename_long_name_cases", "rename_link_alias_cases",
                 "damaged_content_cases")
     assumptions = ("directory mtimes are not part of the snapshot", "stdout/stderr go to /dev/null (never to a file in the sandbox)")
 
@@ -435,7 +435,8 @@ class C18:
         if cmd == "rename":
             case["long_name"] = rng.choice([None, None, None, 240, 247, 248, 250, 255])
             case["target_exists"] = rng.random() < 0.4
-            case["target_kind"] = rng.choice(["file", "file", "dir", "dir-populated"])
+            case["target_kind"] = rng.choice(["file", "file", "dir", "dir-populated", "alias-symlink", "alias-hardlink",
+                                              "target-symlink-to-source"])
             case["metaname"] = rng.choice(["old.torrent", "x.torrent", "weird name.torrent"])
         return case
 
@@ -518,6 +519,19 @@ class C18:
                 case = dict(case, target_exists=True, target_kind="unrepresentable")   # must fail, nothing may change
             elif os.path.abspath(target) == os.path.abspath(mpath):
                 case = dict(case, target_exists=True)      # already carries its own name: nothing may change
+                counters["rename_target_exists"] = 1
+            elif case["target_exists"] and case.get("target_kind") in ("alias-symlink", "alias-hardlink", "target-symlink-to-source"):
+                # the properly named entry and the entry given on the command line are the same file under two names
+                counters["rename_link_alias_cases"] = 1
+                tk = case["target_kind"]
+                if tk == "target-symlink-to-source":
+                    os.symlink(os.path.basename(mpath), target)
+                else:
+                    os.rename(mpath, target)
+                    if tk == "alias-symlink":
+                        os.symlink(os.path.basename(target), mpath)
+                    else:
+                        os.link(target, mpath)
                 counters["rename_target_exists"] = 1
             elif case["target_exists"] and case.get("target_kind") != "unrepresentable":
                 if case.get("target_kind") == "dir":
@@ -616,7 +630,7 @@ class C18:
                                       events=[[e, [p.replace(scratch, "<S>") for p in ps]] for e, ps in wevents[:5]]))
         elif kind == "rename":
             if case["target_exists"]:
-                if oc.ok and os.path.abspath(target) != os.path.abspath(mpath):
+                if oc.ok and os.path.abspath(target) != os.path.abspath(mpath) and case.get("target_kind") != "alias-hardlink":
                     viol.append(oracles.V("rename-did-not-refuse-existing-target", argv=shown))
                 if d["added"] or d["removed"] or d["changed"]:
                     viol.append(oracles.V("rename-clobbered-or-modified", diff=d))
